@@ -83,6 +83,8 @@ def jobs(prop, tier, only_fn=None):
             geos = [(3, 3)]
         if name.startswith("mem") and T == "unsigned char" and prop == "C10":
             geos = geos + [(9, 9)]  # word-at-a-time comparisons need whole aligned words and a tail
+        if qk in ("QK_STRSTR", "QK_CASESTR") and prop == "C10" and tier == "quick" and T == "char":
+            geos = geos + [(5, 4)]  # a self-overlapping needle of 3 inside a haystack of 4 ("aab" in "aaab": wrong skip-ahead)
         for (dn, sn) in geos:
             files = sorted(set([f] + SUP + EXTRA.get(name, [])))
             out.append(Job("%s.%s.d%d.s%d" % (name, prop, dn, sn), prop, "h_query.c", files,
